@@ -23,12 +23,12 @@ RELATED = {
             ("lints", ["L.try-lock", "L.partial-read", "L.partial-write"])],
     "C08": [("c04", ["R04.1", "R04.3"]), ("c03", ["R03.4"]), ("c14", ["R14.4"]), ("lints", ["L.try-send"])],
     "C09": [("c12", ["R12.1", "R12.3", "R12.6", "R12.7", "R12.8", "R12.9"]), ("c10", ["R10.6"]), ("c05", ["R05.1*"]), ("c08", ["R08.1~outside-worker"]), ("c03", ["R03.3"]), ("lints", ["L.partial-read"])],
-    "C10": [("c09", ["R09.1", "R09.5"]), ("c12", ["R12.7", "R12.8", "R12.9"]), ("c05", ["R05.3"]), ("lints", ["L.partial-read"])],
+    "C10": [("c11", ["R11.8~truncate_incomplete_record"]), ("c09", ["R09.1", "R09.5"]), ("c12", ["R12.7", "R12.8", "R12.9"]), ("c05", ["R05.3"]), ("lints", ["L.partial-read"])],
     "C11": [("c12", ["R12.4"]), ("c08", ["R08.4", "R08.6"]), ("c02", ["R02.4"]), ("c07", ["R07.6"]), ("c03", ["R03.1"]), ("lints", ["L.partial-write", "L.file-create-truncate"])],
     "C12": [("c03", ["R03.3"]), ("lints", ["L.partial-read"])],
     "C13": [],
     "C14": [("c13", ["R13.2", "R13.6"]), ("c04", ["R04.7", "R04.9"])],
-    "C15": [("c07", ["R07.2"]), ("c08", ["R08.7"]), ("lints", ["L.try-lock"])],
+    "C15": [("c11", ["R11.8~log_cache"]), ("c07", ["R07.2"]), ("c08", ["R08.7"]), ("lints", ["L.try-lock"])],
     "C16": [("c12", ["R12.6"]), ("lints", ["L.process-exit"])],
 }
 
